@@ -96,6 +96,19 @@ struct Obj {
     /// a reopen happened after the write
     reopened: bool,
     shape: &'static str,
+    /// written before a drop + `Installation::open` that has not been followed by `initialize()`
+    /// yet: the instance has not loaded this object's index entry
+    unloaded: bool,
+    /// while this object was `unloaded`, a write of the un-initialized installation saved a bucket
+    /// file for the object's own bucket (finding installation-uninitialized-write-replaces-bucket)
+    clobbered: bool,
+}
+
+/// bucket of a key (xor of the first nine bytes, folded to a nibble) — written out here, not
+/// taken from the crate
+fn bucket_of(k: &K9) -> u8 {
+    let x = k.iter().fold(0u8, |a, b| a ^ b);
+    (x & 0x0f) ^ (x >> 4)
 }
 
 fn payload_shape(d: &[u8]) -> &'static str {
@@ -118,6 +131,8 @@ struct Inst {
     dir: tempfile::TempDir,
     inst: Installation,
     refm: HashMap<K9, Obj>,
+    /// the current instance came from `Installation::open` alone (no `initialize()` yet)
+    uninit: bool,
 }
 struct AEntry {
     id: u16,
@@ -214,7 +229,7 @@ impl H {
                 }
                 "inst" => {
                     let inst = new_inst(&self.rt, dir.path());
-                    Mode::Inst(Box::new(Inst { dir, inst, refm: HashMap::new() }))
+                    Mode::Inst(Box::new(Inst { dir, inst, refm: HashMap::new(), uninit: false }))
                 }
                 _ => {
                     let mgr = ArchiveManager::new(dir.path());
@@ -256,7 +271,7 @@ impl H {
         }
         self.last_total = total;
         let shape = payload_shape(&data);
-        refm.insert(k9(&key), Obj { data, later_writes: 0, reopened: false, shape });
+        refm.insert(k9(&key), Obj { data, later_writes: 0, reopened: false, shape, unloaded: false, clobbered: false });
         key
     }
 
@@ -404,6 +419,14 @@ impl H {
                         if *ck.as_bytes() != md5_of(&data) {
                             self.fail(s, "inst-content-key-differs", format!("write_file returned content key {} for data whose MD5 is {}", hex::encode(ck.as_bytes()), hex::encode(md5_of(&data))));
                         }
+                        if i.uninit {
+                            // the un-initialized instance saves a bucket file that holds only what
+                            // it has written itself
+                            let b = bucket_of(&k9(&ekey_of(&data)));
+                            for (k, o) in i.refm.iter_mut() {
+                                if o.unloaded && bucket_of(k) == b { o.clobbered = true; }
+                            }
+                        }
                         self.note_write(&mut i.refm, data);
                         format!("ok {}", hex::encode(ck.as_bytes()))
                     }
@@ -429,10 +452,13 @@ impl H {
                     (Err(e), Some(o)) => {
                         self.note_read(o);
                         let c = err_class(e);
-                        if c == "err:notfound" && o.reopened {
-                            self.fail(s, "installation-reopen-loses-index", format!("read_file_by_encoding_key({}) after drop + open + initialize: {e} ({} bytes were written before the reopen)", hex::encode(k9(&key)), o.data.len()));
-                            // restart the reference from what the reopened installation holds (objects written since)
-                            i.refm.retain(|_, o| !o.reopened);
+                        if c == "err:notfound" && o.unloaded {
+                            // drop + Installation::open without initialize(): nothing is loaded
+                            // yet, the object must be back after initialize() (K still compares)
+                            s.tally("inst.read_before_initialize_notfound");
+                        } else if c == "err:notfound" && o.clobbered {
+                            self.fail(s, "installation-uninitialized-write-replaces-bucket", format!("read_file_by_encoding_key({}): {e}; the object ({} bytes) was written, then an Installation opened WITHOUT initialize() wrote an object of the same index bucket, which saved a bucket file holding only its own entry", hex::encode(k9(&key)), o.data.len()));
+                            i.refm.retain(|_, o| !o.clobbered);
                             self.failed = false;
                         } else {
                             self.fail(s, &format!("inst-read-written-key-{}-{}-{}", &c[4..], o.shape, Self::when(o)),
@@ -458,9 +484,11 @@ impl H {
                 let b = self.rt.block_on(i.inst.has_encoding_key(&EncodingKey::from_bytes(key)));
                 let want = i.refm.get(&k9(&key)).cloned();
                 if b != want.is_some() {
-                    if !b && want.as_ref().is_some_and(|o| o.reopened) {
-                        self.fail(s, "installation-reopen-loses-index", format!("has_encoding_key({}) = false after drop + open + initialize", hex::encode(k9(&key))));
-                        i.refm.retain(|_, o| !o.reopened);
+                    if !b && want.as_ref().is_some_and(|o| o.unloaded) {
+                        s.tally("inst.has_before_initialize_false");
+                    } else if !b && want.as_ref().is_some_and(|o| o.clobbered) {
+                        self.fail(s, "installation-uninitialized-write-replaces-bucket", format!("has_encoding_key({}) = false: an Installation opened WITHOUT initialize() wrote an object of the same index bucket and saved a bucket file holding only its own entry", hex::encode(k9(&key))));
+                        i.refm.retain(|_, o| !o.clobbered);
                         self.failed = false;
                     } else {
                         self.fail(s, &format!("inst-has-{}-key-{b}", if want.is_some() { "written" } else { "absent" }), format!("has_encoding_key({}) = {b}", hex::encode(k9(&key))));
@@ -471,10 +499,34 @@ impl H {
             ["reopen"] => {
                 let path = i.dir.path().to_path_buf();
                 i.inst = new_inst(&self.rt, &path);
-                for o in i.refm.values_mut() { o.reopened = true; }
+                i.uninit = false;
+                for o in i.refm.values_mut() { o.reopened = true; o.unloaded = false; }
                 self.last_total = 0;
                 "ok".into()
             }
+            // drop + Installation::open on the same directory, WITHOUT initialize()
+            ["open"] => {
+                let path = i.dir.path().to_path_buf();
+                match Installation::open(path.join("inst")) {
+                    Ok(x) => {
+                        i.inst = x;
+                        i.uninit = true;
+                        for o in i.refm.values_mut() { o.reopened = true; o.unloaded = true; }
+                        self.last_total = 0;
+                        "ok".into()
+                    }
+                    Err(e) => { self.fail(s, "inst-open-err", format!("Installation::open failed: {e}")); err_class(&e).into() }
+                }
+            }
+            // initialize() on the current instance
+            ["init"] => match self.rt.block_on(i.inst.initialize()) {
+                Ok(()) => {
+                    i.uninit = false;
+                    for o in i.refm.values_mut() { o.unloaded = false; }
+                    "ok".into()
+                }
+                Err(e) => { self.fail(s, "inst-initialize-err", format!("initialize failed: {e}")); err_class(&e).into() }
+            },
             _ => return None,
         };
         Some(resp)
@@ -548,6 +600,13 @@ impl H {
                     Ok(b) => show_bytes(&b),
                     Err(e) => err_class(&e).into(),
                 }
+            }
+            // drop the manager, a new one on the same directory WITHOUT open_all(): the next write
+            // goes through create_archive on the existing data.000
+            ["anew"] => {
+                a.mgr = ArchiveManager::new(a.dir.path());
+                self.last_total = 0;
+                "ok".into()
             }
             ["areopen"] => {
                 let mut m = ArchiveManager::new(a.dir.path());
